@@ -5,6 +5,8 @@ exec-ed, wrapped by the real boltons.funcutils.wraps / update_wrapper, and compa
 
 * own signature       inspect.signature(w, follow_wrapped=False) == inspect.signature(f)           (plain)
                       == inspect.Signature.replace(f's parameters minus p)                         (injected=[p])
+                      == f's parameters minus those names of the list that are parameters         (injected=[n1, n2..],
+                         also as tuple / iterator; names that are no parameter only when f has **kwargs)
                       == f's parameters plus q, built with inspect.Parameter                       (expected=q)
 * metadata            __name__, __doc__, __module__ equal to f's, __wrapped__ is f
 * call behaviour      for every call shape (number of positional arguments x subset of keyword names incl. one
@@ -33,6 +35,7 @@ KW_ONLY = inspect.Parameter.KEYWORD_ONLY
 
 UNKNOWN = 'zz'            # keyword name no generated function has
 NEW = ('zq', 'zr')        # names added with expected=
+ABSENT = ('zx', 'zy')     # injected names no generated function has as a parameter (only **kwargs can take them)
 EXP_INT = 77
 VARIANT_BUDGET_S = 120    # per (function, way of wrapping) guard against a hang in the code under test
 
@@ -207,6 +210,41 @@ def metadata_family(tier):
 # variants (how wraps is applied)
 
 EXTRA_LIMIT = 4          # thorough: two added parameters / injected+expected only for <= 4 named parameters
+LIST_CALLS_LIMIT = 3     # quick: injected lists get all call shapes for <= 3 named parameters, else signature only
+LIST_FORMS_LIMIT = 2     # injected lists are also passed as tuple / iterator for <= 2 named parameters
+
+
+def injected_names(variant):
+    """Names the variant passes as injected=: a str stands for the one-element list [p]."""
+    inj = variant.get('injected')
+    if not inj:
+        return []
+    return [inj] if isinstance(inj, str) else list(inj)
+
+
+def injected_argument(variant):
+    names = injected_names(variant)
+    form = variant.get('iform', 'list')
+    if form == 'tuple':
+        return tuple(names)
+    if form == 'iter':
+        return iter(names)
+    return names
+
+
+def injected_lists(names, tier):
+    """Every sequence without repetition of 2 (thorough, <= EXTRA_LIMIT named parameters: also 3) names drawn from
+    the named parameters and - when the function has **kwargs, which then takes a name that is no parameter
+    (inject_to_varkw, the default) - names no parameter has; plus the sequences made of such names only.
+    One-element lists of a real parameter are the str-valued variants."""
+    named = names['pos'] + names['kwo']
+    deep = tier != 'quick' and len(named) <= EXTRA_LIMIT
+    absent = list(ABSENT[:2 if deep else 1]) if names['vk'] else []
+    pool = named + absent
+    out = [[a] for a in absent]
+    for n in (2, 3) if deep else (2,):
+        out += [list(seq) for seq in itertools.permutations(pool, n)]
+    return out
 
 
 def expected_forms(tier, named=0):
@@ -228,6 +266,15 @@ def variants_for(spec, names, tier, metadata_only=False):
         out.append({'api': 'wraps', 'expected': {'form': form, 'n': n, 'default': dflt}})
     if named:
         out.append({'api': 'update_wrapper', 'injected': named[-1]})
+    for seq in injected_lists(names, tier):
+        forms = ('list', 'tuple', 'iter') if len(named) <= LIST_FORMS_LIMIT else ('list',)
+        for form in forms:
+            v = {'api': 'wraps', 'injected': seq}
+            if form != 'list':
+                v['iform'] = form
+            if tier == 'quick' and len(named) > LIST_CALLS_LIMIT:
+                v['calls'] = 'none'
+            out.append(v)
     out.append({'api': 'update_wrapper', 'expected': {'form': 'dict', 'n': 1, 'default': 'int'}})
     if tier != 'quick' and len(named) <= EXTRA_LIMIT:
         for p in named:
@@ -268,7 +315,7 @@ def expected_argument(exp, funcutils):
 def variant_shape(variant):
     parts = []
     if variant.get('injected'):
-        parts.append('injected')
+        parts.append('injected' if isinstance(variant['injected'], str) else 'injected-list')
     exp = variant.get('expected')
     if exp:
         no_default = any(d is EMPTY for _, d in expected_items(exp))
@@ -283,6 +330,11 @@ def make_sig(shape, what):
 
 def param_class(names, p):
     return '%s,%s' % ('pos' if p in names['pos'] else 'kwonly', 'default' if p in names['defaults'] else 'required')
+
+
+def list_class(names, seq):
+    """Shape of an injected list: kinds of its names in order (absent = no parameter of the function)."""
+    return '+'.join('pos' if p in names['pos'] else 'kwonly' if p in names['kwo'] else 'absent' for p in seq)
 
 
 # ----------------------------------------------------------------------------------------------------
@@ -407,7 +459,7 @@ class Applied:
         self.wrapper = wrapper
         kw = {}
         if variant.get('injected'):
-            kw['injected'] = [variant['injected']]
+            kw['injected'] = injected_argument(variant)
         if variant.get('expected'):
             kw['expected'] = expected_argument(variant['expected'], funcutils)
         self.w, self.error = None, None
@@ -430,9 +482,8 @@ class Applied:
         not its place or kind: it is inserted where the implementation put it, provided it is
         positional-or-keyword or keyword-only; everything else comes from f's signature unchanged."""
         params = list(self.sig_f.parameters.values())
-        inj = self.variant.get('injected')
-        if inj:
-            params = [p for p in params if p.name != inj]
+        inj = injected_names(self.variant)
+        params = [p for p in params if p.name not in inj]
         own_names = list(own.parameters)
         for name, dflt in expected_items(self.variant.get('expected')):
             got = own.parameters.get(name)
@@ -452,8 +503,8 @@ class Applied:
         exp = self.variant.get('expected')
         if not exp or all(d is not EMPTY for _, d in expected_items(exp)):
             return False
-        inj = self.variant.get('injected')
-        return any(p in self.names['defaults'] and p != inj for p in self.names['pos'])
+        inj = injected_names(self.variant)
+        return any(p in self.names['defaults'] and p not in inj for p in self.names['pos'])
 
     def describe(self, params):
         if params is not None:
@@ -463,7 +514,7 @@ class Applied:
             return text
         want = 'signature of f %s' % self.sig_f
         if self.variant.get('injected'):
-            want += ' minus %s' % self.variant['injected']
+            want += ' minus %s' % ', '.join(injected_names(self.variant))
         for n, d in expected_items(self.variant.get('expected')):
             want += ' plus %s%s' % (n, '' if d is EMPTY else '=%r' % (d,))
         return want
@@ -531,8 +582,10 @@ def check_variant(t, spec, variant, f, names, part, calls=None):
     shape = variant_shape(variant)
     base_case = {'part': part, 'spec': spec, 'variant': variant}
     inj = variant.get('injected')
-    if inj:
+    if isinstance(inj, str):
         shape = shape.replace('injected', 'injected(%s)' % param_class(names, inj))
+    elif inj:
+        shape = shape.replace('injected-list', 'injected-list(%s)' % list_class(names, inj))
     f_before = fn_snapshot(f)
     ap = Applied(spec, variant, f, names)
     # violations are grouped by signature and tag set: the only tag marks the input class of the defect the design
@@ -613,6 +666,8 @@ def check_variant(t, spec, variant, f, names, part, calls=None):
             if not hide and getattr(w2, '__wrapped__', None) is not w:
                 bad('rewrap:metadata:__wrapped__', 'the wrapped function', repr(getattr(w2, '__wrapped__', None)))
     # ---- calls
+    if calls is None and variant.get('calls') == 'none':
+        calls = []          # quick tier, injected list on a large function: signature and metadata only
     if calls is None:
         added = [n for n, _ in expected_items(variant.get('expected'))]
         calls = call_shapes(len(names['pos']) + len(added) + 2, names['pos'] + names['kwo'] + added + [UNKNOWN])
@@ -682,7 +737,13 @@ def run(ctx):
         'call_shapes': 'positional arguments 0..n_pos(+added)+2 x every subset of keyword names from '
                        '(positional-or-keyword names + keyword-only names + added names + one unknown name)',
         'ways_of_wrapping': 'wraps(f), update_wrapper(w, f); injected=[p] for every positional-or-keyword and '
-                            'keyword-only p; expected as (form/number/default) '
+                            'keyword-only p; injected=list/tuple/iterator of 2 names (thorough, <= %d named '
+                            'parameters: up to 3) without repetition from the named parameters and, when the function '
+                            'has **kwargs, %s name(s) that are no parameter of it, and the lists of such names only '
+                            '(tuple/iterator forms for <= %d named parameters%s); expected as (form/number/default) '
+                            % (EXTRA_LIMIT, '1' if ctx.quick() else 'up to 2', LIST_FORMS_LIMIT,
+                               '; call shapes for <= %d named parameters, signature and metadata only beyond'
+                               % LIST_CALLS_LIMIT if ctx.quick() else '')
                             + ', '.join('%s/%d/%s' % x for x in expected_forms(ctx.tier))
                             + ('; injected=[p] combined with expected; two added parameters and the combination '
                                'only for functions with <= %d named parameters' % EXTRA_LIMIT
@@ -695,6 +756,10 @@ def run(ctx):
         'injected=[p] is exercised for named parameters (positional-or-keyword, keyword-only); the names of *args '
         'and **kwargs are not removable arguments in FunctionBuilder\'s model and the statement does not say what '
         'injecting them means',
+        'an injected list removes exactly those of its names that are parameters; a name that is no parameter is '
+        'only listed when the function has **kwargs (the wrapper passes it as a keyword; own signature unchanged by '
+        'it) - what happens without **kwargs (an exception today) and with a repeated name is not stated and not '
+        'explored',
         'the statement fixes name and default of a parameter added with expected, not its kind or position: '
         'positional-or-keyword or keyword-only at any position is accepted; where appending a parameter without '
         'default after defaulted positional parameters has no valid Python signature, raising is accepted too',
